@@ -16,7 +16,7 @@ Vals == {MinI, -7, -1, 0, 2, 7, 31, 65536, MaxI}
 FoldOps == ArithOps
 \* exponents are kept <= 31: the value is still well defined beyond, but evaluating MaxI ** MaxI is only a way to waste compile time
 Pairs(op) == {<<x, y>> \in Vals \X Vals : ArithDef(op, x, y) /\ (op # "**" \/ y <= 31)}
-Sites == {"intdecl", "operand", "literal", "cond", "callarg", "untyped", "intchain", "callbody", "calltwice", "callliteral"}
+Sites == {"intdecl", "operand", "literal", "cond", "callarg", "untyped", "intchain", "callbody", "calltwice", "callliteral", "litlit"}
 FB(op) == SFunc("f", <<[ty |-> "Signal", n |-> "s"], [ty |-> "int", n |-> "n"], [ty |-> "int", n |-> "m"]>>, <<>>, Bin("+", Ref("s"), Bin(op, Ref("n"), Ref("m"))))
 FL(op) == SFunc("g", <<[ty |-> "int", n |-> "n"], [ty |-> "int", n |-> "m"]>>, <<>>, Lit(TName("signal-X"), Bin(op, Ref("n"), Ref("m"))))
 
@@ -28,6 +28,8 @@ Prog(site, op, x, y) ==
     [] site = "cond" -> <<InA, SLet("Signal", "r", CondE(Bin("<=", A, Bin(op, Num(x), Num(y))), Num(1)))>>
     [] site = "callarg" -> <<InA, SFunc("f", <<[ty |-> "Signal", n |-> "s"], [ty |-> "int", n |-> "n"]>>, <<>>, Bin("+", Ref("s"), Ref("n"))),
                              SLet("Signal", "r", CallE("f", <<A, Bin(op, Num(x), Num(y))>>))>>
+    \* both operands anonymous typed literals of one type (constants the IR-level propagation may fold)
+    [] site = "litlit" -> <<InA, SLet("Signal", "q", Bin(op, Lit(TName("signal-X"), Num(x)), Lit(TName("signal-X"), Num(y)))), SLet("Signal", "r", Bin("+", A, Ref("q")))>>
     [] site = "callbody" -> <<InA, FB(op), SLet("Signal", "r", CallE("f", <<A, Num(x), Num(y)>>))>>
     \* an earlier call of the same function with other constants (2 op 1 is defined for every operator) must not influence this one
     [] site = "calltwice" -> <<InA, FB(op), SLet("Signal", "q", CallE("f", <<A, Num(2), Num(1)>>)), SLet("Signal", "r", CallE("f", <<A, Num(x), Num(y)>>))>>
@@ -40,6 +42,7 @@ InK == SIn("kx", "signal-K", 0)
 Twin(site, op, x, y) ==
   CASE site = "cond" -> <<InA, InK, SLet("Signal", "r", CondE(Bin("<=", A, Bin(op, Ref("kx"), Num(y))), Num(1)))>>
     [] site = "literal" -> <<InA, InK, SLet("Signal", "q", Proj(Bin(op, Ref("kx"), Num(y)), TName("signal-X"))), SLet("Signal", "r", Bin("+", A, Ref("q")))>>
+    [] site = "litlit" -> <<InA, InK, SLet("Signal", "q", Proj(Bin(op, Ref("kx"), Num(y)), TName("signal-X"))), SLet("Signal", "r", Bin("+", A, Ref("q")))>>
     [] site = "callliteral" -> <<InA, InK, SLet("Signal", "q", Proj(Bin(op, Ref("kx"), Num(y)), TName("signal-X"))), SLet("Signal", "r", Bin("+", A, Ref("q")))>>
     [] OTHER -> <<InA, InK, SLet("Signal", "r", Bin("+", A, Bin(op, Ref("kx"), Num(y))))>>
 P(site, op, x, y) == LET s == Prog(site, op, x, y)  t == Twin(site, op, x, y) IN
